@@ -842,6 +842,15 @@ def replay(ctx, path):
     print("\n".join(t))
     sc = Sc("replay", "replay")
     why = judge_end(sc, t)
+    # sf_close returns 0 when the underlying close succeeds (the clause of `run`): every `close hN` whose `open hN` succeeded
+    ops = [l for l in script.split("\n") if l.strip()]
+    if len(ops) == len(t) and "closefault" not in text and "fault at=" not in script and "fsize" not in script and "ledger closefd" not in script:
+        for i, o in enumerate(ops):
+            if o.startswith("close "):
+                hn = o.split()[1]
+                opened = [j for j in range(i) if ops[j].startswith("open %s " % hn)]
+                if opened and t[opened[-1]].startswith("open=ok") and not re.match(r"ret=0\b", t[i]):
+                    why.append("sf_close returned `%s` on a healthy descriptor" % t[i])
     if rc != 0:
         why.append("harness exit status %d" % rc)
         print(err[-3000:])
@@ -917,6 +926,8 @@ def run(ctx):
     late_found, late_seeds = lateopen.run_for(ctx, "C16", sys.modules[__name__], fmts)     # malformed inputs rejected AFTER each allocating chunk
     scs += lateopen.prefix_scenarios(sys.modules[__name__], late_seeds, quick, rng)          # ... and their accepted counterparts, peeked
     scs += closefault.scenarios(ctx, sys.modules[__name__], fmts)          # sf_close on failing I/O, every codec: fault at every callback of the close, EFBIG, EBADF
+    from .. import c16foreign
+    scs += c16foreign.scenarios(ctx, sys.modules[__name__], fmts)          # foreign-but-valid files r / rw (close returns 0), ALAC spool file with an unusable TMPDIR
     allsc = scs + mal
     tr = run_scripts(ctx, allsc)
 
